@@ -38,3 +38,6 @@ package waitlist
 //@   ensures old(it) != nil ==> it == old(it) && it.Value == old(it.Value)
 //@   ensures ledgerDelta(wl.bus.checker, coin) == old(ledgerDelta(wl.bus.checker, coin)) + old(value.val)
 //@   modifies wlItem(wl, address, pubkey, coin), wlCache, ledgerDelta(wl.bus.checker, coin), it != nil ? it.Value.val : nothing
+
+//@ # ---------------------------------------------------------------- lock discipline (C25)
+//@ guarded WaitList.list, WaitList.dirty by lock
